@@ -631,21 +631,30 @@ func runCase(ds *Dataset, q *Query, configs []Config, source string) *Case {
 	return c
 }
 
-func createAndLoad(r *gen.Rand, ds *Dataset) error {
-	code, body, err := post("/query", url.Values{"q": {"CREATE DATABASE " + ds.Name}}, nil)
-	if err != nil || code != 200 {
-		return fmt.Errorf("create database: %d %s %v", code, body, err)
+// createAndLoad writes all data sets in three rounds: batch 1 of every data set, flush; batch 2 of every data
+// set, flush (out of order w.r.t. batch 1 for shuffled data sets); batch 3 of every data set, which stays in
+// the memtable (the flush command is node-wide, so the rounds must not be interleaved per data set).
+func createAndLoad(works []*work) error {
+	batches := make([][]string, len(works))
+	for i, w := range works {
+		code, body, err := post("/query", url.Values{"q": {"CREATE DATABASE " + w.ds.Name}}, nil)
+		if err != nil || code != 200 {
+			return fmt.Errorf("create database: %d %s %v", code, body, err)
+		}
+		batches[i] = linesOf(w.r, w.ds)
 	}
-	lines := linesOf(r, ds)
-	// three batches: write+flush, write+flush (out of order w.r.t. the first), write (stays in memory)
-	n := len(lines)
-	cuts := []int{0, n / 3, 2 * n / 3, n}
 	for b := 0; b < 3; b++ {
-		part := lines[cuts[b]:cuts[b+1]]
-		if len(part) > 0 {
+		for i, w := range works {
+			lines := batches[i]
+			n := len(lines)
+			cuts := []int{0, n / 3, 2 * n / 3, n}
+			part := lines[cuts[b]:cuts[b+1]]
+			if len(part) == 0 {
+				continue
+			}
 			var lastErr error
 			for try := 0; try < 50; try++ {
-				code, body, err := post("/write", url.Values{"db": {ds.Name}}, []byte(strings.Join(part, "\n")))
+				code, body, err := post("/write", url.Values{"db": {w.ds.Name}}, []byte(strings.Join(part, "\n")))
 				if err == nil && code == 204 {
 					lastErr = nil
 					break
@@ -797,10 +806,8 @@ func main() {
 			fail("ctrl %s: %v", m, err)
 		}
 	}
-	for _, w := range works {
-		if err := createAndLoad(w.r, w.ds); err != nil {
-			fail("load %s: %v", w.ds.Name, err)
-		}
+	if err := createAndLoad(works); err != nil {
+		fail("load: %v", err)
 	}
 	for _, w := range works {
 		if err := waitVisible(w.ds); err != nil {
